@@ -194,10 +194,16 @@ func (ex *Exec) harnessPrim(st *State, fn *ssa.Function, args []Value, in *ssa.C
 		if !ok {
 			return false
 		}
-		st.bencNext = v
+		st.bencNext = append(st.bencNext, bencReg{iv.T.Underlying().(*types.Pointer).Elem(), v})
 		n := ex.freshVar("benc.len", BV(64))
 		st.pc = append(st.pc, Ule(n, Const(64, 1<<20)), Ult(Const(64, 1), n))
 		setRes(st, in, SliceV{ex.newObj(st, ArrV{ex.freshArr("benc"), -1, 8}), Const(64, 0), n, n})
+	case "vLastEncoded":
+		if st.lastEnc == nil {
+			setRes(st, in, IfaceV{})
+		} else {
+			setRes(st, in, st.lastEnc)
+		}
 	case "vFreed", "vLive":
 		s := args[0].(SliceV)
 		freed := s.Obj != 0 && st.heap[s.Obj].Freed
@@ -441,7 +447,8 @@ func init() {
 		"github.com/zeebo/bencode.NewDecoder": func(ex *Exec, st *State, args []Value, in *ssa.Call, pos token.Pos) bool {
 			id, ok := ex.streamOf(st, args[0])
 			if !ok {
-				panic("NewDecoder over unknown reader")
+				setRes(st, in, PtrV{Obj: ex.newObj(st, OpaqueV{"bencode.Decoder", 0})})
+				return true
 			}
 			nid := ex.newObj(st, DecoderV{R: id, Parsed: Const(64, 0)})
 			setRes(st, in, PtrV{Obj: nid})
@@ -449,8 +456,30 @@ func init() {
 		},
 		"(*github.com/zeebo/bencode.Decoder).Decode": func(ex *Exec, st *State, args []Value, in *ssa.Call, pos token.Pos) bool {
 			did := args[0].(PtrV).Obj
+			if tg, ok := args[1].(IfaceV); ok && tg.T != nil {
+				if v, ok := st.takeBenc(tg.T.Underlying().(*types.Pointer).Elem()); ok {
+					if !ex.store(st, tg.V.(PtrV), v, pos) {
+						return false
+					}
+					setRes(st, in, nilErr)
+					return true
+				}
+			}
 			st.stubbed = true
-			d := st.heap[did].Val.(DecoderV)
+			d, isDec := st.heap[did].Val.(DecoderV)
+			if !isDec {
+				// decoder over a reader the engine does not model: arbitrary outcome
+				o := st.clone()
+				setRes(o, in, errVal("bencode"))
+				ex.work = append(ex.work, o)
+				target := args[1].(IfaceV)
+				pt := target.T.Underlying().(*types.Pointer)
+				if !ex.store(st, target.V.(PtrV), ex.havocDeep(st, pt.Elem(), "bencode"), pos) {
+					return false
+				}
+				setRes(st, in, nilErr)
+				return true
+			}
 			k := ex.freshVar("bencode.k", BV(64))
 			st.pc = append(st.pc, Ule(k, ex.remaining(st, d.R)))
 			ex.consume(st, d.R, k)
@@ -492,6 +521,54 @@ func init() {
 			n := Const(64, 16384)
 			s := SliceV{ex.newObj(st, ArrV{ex.freshArr("pool"), -1, 8}), Const(64, 0), n, n}
 			setRes(st, in, IfaceV{T: types.NewSlice(types.Typ[types.Uint8]), V: s})
+			return true
+		},
+		"github.com/zeebo/bencode.NewEncoder": func(ex *Exec, st *State, args []Value, in *ssa.Call, pos token.Pos) bool {
+			setRes(st, in, PtrV{Obj: ex.newObj(st, OpaqueV{"bencode.Encoder", 0})})
+			return true
+		},
+		"(*github.com/zeebo/bencode.Encoder).Encode": func(ex *Exec, st *State, args []Value, in *ssa.Call, pos token.Pos) bool {
+			st.lastEnc = args[1]
+			o := st.clone()
+			setRes(o, in, errVal("bencode.encode"))
+			ex.work = append(ex.work, o)
+			setRes(st, in, nilErr)
+			return true
+		},
+		"crypto/rand.Read": func(ex *Exec, st *State, args []Value, in *ssa.Call, pos token.Pos) bool {
+			b := args[0].(SliceV)
+			if b.Obj != 0 {
+				a, _ := ex.sliceArr(st, b)
+				st.heap[b.Obj] = &Obj{Val: ArrV{ACopy(a.A, b.Off, ex.freshArr("crand"), Const(64, 0), b.Len), a.N, a.ElW}}
+			}
+			setRes(st, in, TupleV{b.Len, nilErr})
+			return true
+		},
+		"log.New": func(ex *Exec, st *State, args []Value, in *ssa.Call, pos token.Pos) bool {
+			et := in.Type().Underlying().(*types.Pointer).Elem()
+			setRes(st, in, PtrV{Obj: ex.newObj(st, zeroValue(et))})
+			return true
+		},
+		"(*log.Logger).Println": nop,
+		"log.Println":           nop,
+		"net/url.Parse": func(ex *Exec, st *State, args []Value, in *ssa.Call, pos token.Pos) bool {
+			// adversarial URL parser: fails, or yields a URL whose scheme is any short string
+			st.stubbed = true
+			tup := in.Type().(*types.Tuple)
+			o := st.clone()
+			setRes(o, in, TupleV{PtrV{}, errVal("url.Parse")})
+			ex.work = append(ex.work, o)
+			et := tup.At(0).Type().Underlying().(*types.Pointer).Elem()
+			u := zeroValue(et).(StructV)
+			f := append([]Value(nil), u.F...)
+			ex.fresh++
+			nm := fmt.Sprintf("url.scheme!%d", ex.fresh)
+			n := ex.namedVar(nm+".len", BV(64))
+			st.pc = append(st.pc, Ule(n, Const(64, 5)))
+			f[0] = StringV{Sym: true, Arr: AVar(nm, 8), Len: n, Max: 5}
+			id := ex.newObj(st, StructV{f})
+			st.heap[id].T = et
+			setRes(st, in, TupleV{PtrV{Obj: id}, nilErr})
 			return true
 		},
 		"(*sync.Pool).Put": func(ex *Exec, st *State, args []Value, in *ssa.Call, pos token.Pos) bool { return true },
@@ -626,10 +703,8 @@ func init() {
 		},
 		"github.com/zeebo/bencode.DecodeBytes": func(ex *Exec, st *State, args []Value, in *ssa.Call, pos token.Pos) bool {
 			target := args[1].(IfaceV)
-			if st.bencNext != nil {
+			if v, ok := st.takeBenc(target.T.Underlying().(*types.Pointer).Elem()); ok {
 				// the harness registered the decoded value (natively: the real encoding is decoded)
-				v := st.bencNext
-				st.bencNext = nil
 				if !ex.store(st, target.V.(PtrV), v, pos) {
 					return false
 				}
